@@ -930,10 +930,15 @@ impl Context {
             let exit_early = self.vm.frame().exit_early();
 
             if self.vm.handle_exception_at(pc) {
+                // The frames popped so far still occupy the value stack: without this, every
+                // exception caught from a callee leaked the callee's frame until the catching
+                // function returned.
+                self.vm.stack.truncate_to_frame(&frame);
                 return ControlFlow::Continue(());
             }
 
             if exit_early {
+                self.vm.stack.truncate_to_frame(&frame);
                 return ControlFlow::Break(CompletionRecord::Throw(
                     self.vm
                         .pending_exception
